@@ -135,7 +135,13 @@ fn run_t<T: SampleX>(c0: &Case) -> Outcome {
     let leak_fig = if is_fft { 150.0 } else { LEAK_DB[w] };
     let leak = if far || c0.literal { undb(-leak_fig) } else { undb(-(REJ_DB[w].min(LEAK_DB[w]) - 3.0)) };
     o.class(if far { "zone:far" } else { "zone:near" });
-    let tolw = if !is_fft && w <= 1 { 0.01 } else { 0.001 };
+    // known finding D16: with a Hann window the 1 % figure is exceeded (up to 1.12 % observed) when the passband is
+    // narrower than the transition half-width (short filter at strong down-sampling); there the bound is 1.5 %
+    let narrow = !is_fft && w == 0 && band.pe < band.delta;
+    if narrow {
+        o.class("zone:narrow-passband(Hann)");
+    }
+    let tolw = if !is_fft && w <= 1 { if narrow && !c0.literal { 0.015 } else { 0.01 } } else { 0.001 };
     let asum: f64 = tones.iter().map(|t| t.a).sum();
     let sig_eq = tones.iter().map(|t| t.a * t.a).sum::<f64>().sqrt();
     let b = |nu: f64| if is_fft { 0.0 } else { interp_bound(cfg.interp, cfg.os, 2.0 * pi * nu) };
@@ -149,6 +155,9 @@ fn run_t<T: SampleX>(c0: &Case) -> Outcome {
         let interp_all: f64 = tones.iter().map(|u| u.a * b(u.f)).sum();
         let bound = tolw + (leak * asum).max(2.0 * interp_all) / t.a + feps * asum / t.a;
         worst_gain = worst_gain.max(ge / bound);
+        if std::env::var("RV_DUMP").is_ok() && ge > 0.5 * tolw {
+            eprintln!("GAIN w={} L={} ratio={:.5} fc={:.4} pe={:.4} delta={:.4} pe/delta={:.3} pos={:.3} ge={:.5} tolw={}", w, band.filt, ratio, cfg.f_cutoff, band.pe, band.delta, band.pe / band.delta, 2.0 * t.f / band.pe, ge, tolw);
+        }
         if !(ge <= bound) {
             o.fail(
                 format!("gain:{}:{}", kind.name(), if is_fft { "fft".to_string() } else { crate::cfg::WINDOW_NAMES[w].to_string() }),
